@@ -340,5 +340,24 @@ def typed_dynamic_leaf_checked(chk: Check, rule: str) -> None:
         accepted = v is None or (isinstance(v, ast.Constant) and v.value is None)
         if accepted and not any(m in type_tests for m in path):
             bad.append([m.lineno for m in path if m.kind in ('test', 'return')])
+    # ... and a dict is a NAMESPACE of values, never itself a value of the type: every accepting path recurses into its items
+    rec = [m for m in ff.cfg.nodes if m.kind == 'iter' and pv in {x.id for x in ast.walk(m.ast.iter) if isinstance(x, ast.Name)}]
+    rec_calls = [m for m in ff.cfg.nodes if any(isinstance(c, ast.Call) and last_name(c) == 'validate_dynamic_ports' for c in (walk_shallow(m.expr()) if m.expr() is not None else []))]
+    bad_d, nd = [], 0
+    vald = {'self._valid_type is None': False, 'self.valid_type is None': False, f'isinstance({pv}, dict)': True}
+    for path in paths_under(ff, vald):
+        if path[-1] is not ff.cfg.exit:
+            continue
+        rets = [m for m in path if m.kind == 'return']
+        if not rets:
+            continue
+        nd += 1
+        v = rets[-1].ast.value
+        accepted = v is None or (isinstance(v, ast.Constant) and v.value is None)
+        if accepted and not any(m in rec for m in path):
+            bad_d.append([m.lineno for m in path if m.kind in ('test', 'return')])
+    chk.ob(rule, vd, bool(rec) and bool(rec_calls) and not bad_d and nd >= 1, f'typed dynamic namespace, dict value: of {nd} accepting paths none returns without iterating over the items and validating each '
+           '(a dict that "is of the valid type" would switch off the type check for everything below it)' + (f'; paths that skip it (test/return lines): {bad_d[:2]}' if bad_d else ''),
+           kind='typed-dict-always-recursed')
     chk.ob(rule, vd, not bad and n >= 2, f'typed dynamic namespace, non-dict value: of {n} paths none accepts (returns None) without passing the isinstance(valid_type) test' +
            (f'; accepting paths that skip it (test/return lines): {bad[:2]}' if bad else ''), kind='typed-leaf-always-checked')
